@@ -210,6 +210,10 @@ package builder
 //@ at call data/builder.BuildUnixFSDirectoryEntry#1 assert entry-stored-before-directory: stored(callee_hash)
 //@ at call data/builder.BuildUnixFSSymlink#1 assert symlink-target-is-the-readlink-text: callee_content == content
 //@ at call data/builder.BuildUnixFSDirectoryEntry#1 assert entry-is-named-sized-and-linked-as-imported: callee_name == dirEntryName(e) && callee_size == int64(sz) && callee_hash == lnk
+//@ at call os.ReadDir#1 assert listed-only-when-a-directory: (fileMode(lastLstat) & 0x80000000) != 0
+//@ at call os.Readlink#1 assert read-as-a-link-only-when-a-symlink: (fileMode(lastLstat) & 0x8F280000) == 0x08000000
+//@ at call os.Open#1 assert opened-only-when-a-regular-file: (fileMode(lastLstat) & 0x8F280000) == 0
+//@ at call fmt.Errorf#1 assert rejected-only-when-another-kind-of-file: (fileMode(lastLstat) & 0x80000000) == 0 && (fileMode(lastLstat) & 0x8F280000) != 0x08000000 && (fileMode(lastLstat) & 0x8F280000) != 0
 
 // ---------------------------------------------------------------------------------------------
 // C01 / C11: size bookkeeping of the file builder. A node's content size is the total of its
